@@ -637,6 +637,23 @@ impl Session {
         let mut by_terminate = false;
         'outer: loop {
             let msg = loop {
+                // PostgreSQL validates the message type as soon as its first byte is there, and the length against a
+                // per-type limit as soon as the header is there (SocketBackend / pq_getmessage)
+                if let Some(&t) = framer.buf.first() {
+                    if !b"QPBEDCHSXdcfpF".contains(&t) {
+                        self.ev(EvKind::ProtoErr { code: "08P01".into(), tag: None });
+                        let _ = sock.write_all(&proto::error_response("FATAL", "08P01", &format!("invalid frontend message type {}", t))).await;
+                        break 'outer;
+                    }
+                    if framer.buf.len() >= 5 {
+                        let len = i32::from_be_bytes([framer.buf[1], framer.buf[2], framer.buf[3], framer.buf[4]]);
+                        let max = if b"SHXEDCcf".contains(&t) { 10_000 } else { 0x3fff_ffff };
+                        if len < 4 || len > max {
+                            self.ev(EvKind::ProtoErr { code: "08P01".into(), tag: None });
+                            break 'outer;
+                        }
+                    }
+                }
                 match framer.next() {
                     Ok(Some(m)) => break m,
                     Ok(None) => {}
